@@ -1,5 +1,6 @@
 import BqVerif.Model.Num
 import BqVerif.Model.Gates
+import BqVerif.Model.GatesCKM
 import BqVerif.Drivers.Util
 /-
 Driver for the `gates` machine (C18): evaluates the gate model exactly over
@@ -95,7 +96,7 @@ def parseG : Nat → List String → Option (GExp × List String)
     | _ => none
 
 def eval : GExp → Option (GVal Q8)
-  | .fam name args => family K8 name args
+  | .fam name args => familyExt K8 name args
   | .ctrl cs g => (eval g).map (GVal.controlled cs)
   | .dag g => (eval g).map GVal.dagger
   | .tag g => (eval g).map GVal.tagged
